@@ -343,7 +343,7 @@ PROPS["C19"] = {
     "rule": "quick: one phase per 256-block; thorough: all 2^32 phases",
 }
 PROPS["C20"] = {
-    "modules": ["C20", "C20b", "C20c"],
+    "modules": ["C20", "C20b", "C20c", "NonVacuity"],
     "families": ["osub", "satscale", "unwrap", "accu", "dsm", "pll", "lowpass", "cic_dec", "cic_int", "num", "biquad",
                  "cossin", "atan2", "complex", "lockin", "rpll", "sweep", "hbf", "fbiquad", "coeff", "pid", "glue", "repr"],
     "n_quick": 20000, "n_thorough": 200000,
@@ -353,6 +353,7 @@ PROPS["C20"] = {
         "NEGATIONS (known findings): Lowpass<2> full scale (c20_neg_lowpass2), Dsm<8> (c20_neg_dsm8), Biquad partial sum (c20_neg_biquad_partial_sum)",
         "REMAINING ENTRY POINTS (Props/C20b.lean, 28 corollaries of theorems in the other property files, uniform shape 'inside the documented domain the checked model returns .ok'): overflowing_sub / Unwrapper::update / Accu::next (total by type + range facts), Cic::decimate for any order, rate, width, input (c20b_cic_decimate), Cic::gain where R^N is representable, Cic::interpolate where the exact recursion fits; Lowpass<2>: any input sequence within +-2^29 from a settled state or after set(), every step between levels within +-2^30 (c20b_lowpass2_*), and the unconditional clause 'any sample' proved FALSE (c20b_lowpass2_any_sample_full_false: F-C10); Lockin: one step reduces to the two Lowpass<2> updates, tone runs with A <= 2^30 never panic (c20b_lockin_step, c20b_lockin_run); Dsm K = 0 (after the fix), K <= 7 from every invariant state, 1 <= K <= 8 returns iff no exact MASH output equals +128 (c20b_dsm_*); half-band stages and cascades: for admissible block lists every slice bound of the Rust code holds and the output counts match the debug assertions (c20b_hbf*); fixed-point Biquad update::<4/5>: checked .ok when every partial sum fits, release always; quantize and Biquad::from saturate into range; complex from_angle / arg / saturating add, sub. The file ends with the explicit list of entry points that had NO no-panic theorem; most of them are closed by Props/C20c.lean (next item); still without one: Lowpass<2> beyond the proved domains, Lockin for non-tone inputs, Repeat/Cascade over Lowpass<2>, Sweep::fit and the float helpers, PidBuilder::build on floats, svf - covered by the checked-profile correspondence and the native oracle only",
         "GAPS CLOSED (Props/C20c.lean, 42 theorems): the Filter combinators never panic for any i32 sample, any gain 1 <= k <= 2^31-1 and any in-range state - Nyquist, Repeat<N, Lowpass<1>> for EVERY N, Cascade<Lowpass<1>, Nyquist>, AccuOsc over Sweep (c20c_nyquist, c20c_repeat_lowpass1, c20c_cascade_lowpass1_nyquist, c20c_accu_osc); EXACT no-panic conditions (iff) generic in (w, q) for forward_gain (both partial sums of b0+b1+b2 fit), input_offset (additionally the sum is non-zero; a zero DC numerator divides by zero in BOTH profiles), set_input_offset (c20c_forward_gain_iff, c20c_input_offset_iff, c20c_set_input_offset_iff, with values and proved panic witnesses); fixed-point update::<2> (DF2T): checked .ok iff the five narrow sums fit (Df2tFit), release always, new state in range (c20c_biquad_update2_iff, c20c_biquad_update2_release, panic / wrong-sign witness c20c_biquad_update2_panic_witness); settle_interpolate .ok iff rate+1, (rate+1)^N and x (rate+1)^N are representable (c20c_cic_settle_iff); CIC from ARBITRARY in-range states: decimate keeps the state in range, one interpolate step .ok iff the comb and integrator sums fit (c20c_cic_decimate_any_state, c20c_cic_interpolate_some_iff, c20c_cic_interpolate_none_iff). Observations recorded there (outside C20's enumerated entry points, no documented domain excludes them): forward_gain() overflows when b0+b1+b2 >= 2.0; input_offset() divides by zero for every filter with zero DC numerator (e.g. every high-pass); fixed-point DF2T has no wide accumulator (documented by the crate as 'do not use')",
+        "NON-VACUITY AUDIT (Props/NonVacuity.lean + NonVacuityA..D, built and audited with this property because C20 is the union of the others): 220 further examples instantiating the hypotheses of every property theorem of all 36 Props files that was not already followed by an instance in its own file, with documented, reachable, non-degenerate witnesses (Lowpass k = 2^24 and a settled non-set() state, RPLL 8/4000/16/15 and the reachable dead-band state across an i32 wrap, CIC N = 3 rate 7, Dsm K = 3 after the doc-test input and the K = 8 boundary state, a Q2.30 Butterworth low-pass, the depth-4 half-band cascades, a genuinely rounding FlModelX ...); every theorem is accounted for by a witness or by a per-file comment (no hypotheses / independent range facts / instance at a quoted line). No theorem was found vacuous; recorded limits: the RPLL lock regions exclude all six configurations of the crate's own tests (proved), sat_scale_clip has no positive-saturation case at shift 32, the dB form of the stop-band theorem needs response != 0 (the linear form does not), the float theorems assume the standard rounding model",
     ],
     "clauses_explored": [
         "panics that originate in Rust mechanics rather than arithmetic (slice indexing inside iterator adaptors, copy_within, unimplemented!() arms, float helpers of Sweep, coefficient builders in f64): checked-profile correspondence on every op family (PANIC lines must agree with the model) and the union of all native oracles plus sweeps of Sweep::next / Sweep::fit / AccuOsc / complex helpers / Nyquist",
